@@ -10,7 +10,7 @@ for d in seeded/C*-*/; do
   n=$(basename $d); p=${n%%-*}
   [[ -n "$PAT" && ! "$n" =~ $PAT ]] && continue
   git -C $WT checkout -q -- . ; git -C $WT clean -fdq
-  if ! git -C $WT apply $d/patch.diff 2>/dev/null; then echo "$n APPLY-FAILED"; continue; fi
+  if ! git -C $WT apply /verif/$d/patch.diff 2>/dev/null; then echo "$n APPLY-FAILED"; continue; fi
   VERIF_REPO=$WT ./check $p > /tmp/seed-regress-$n.log 2>&1; rc=$?
   echo "$n rc=$rc $( [ $rc -eq 1 ] && echo CAUGHT || echo MISSED-OR-INCONCLUSIVE )"
 done
